@@ -1,57 +1,187 @@
 (* Untyped entry points used by the extracted driver:
      run   op args        = the model's answer, encoded
-     check op args out    = the property oracle applied to an (implementation or model) answer *)
+     check op args out    = the property oracle applied to an (implementation or model) answer
+   Operation names are  cNN.<family>  with family in u w u8 w8 tu tw t8u t8w:
+   the UTF-8 and runtime-typed families are answered by the same byte model (C14, C15). *)
 From Coq Require Import List NArith Bool String Ascii.
 Import ListNotations.
-From TP Require Import Core Val Path Unix Spec Ops.
+From TP Require Import Core Val Path Unix Win Obs Spec Ops Oracles Utf8.
 Open Scope N_scope.
 Open Scope string_scope.
 
-Definition e_comp (c : comp) : val :=
-  match c with Root => VC "R" [] | Cur => VC "C" [] | Parent => VC "P" [] | Normal n => VC "Nm" [VB n] end.
+Definition VBad := VC "badargs" [].
+
+(* split "c09.w8" into ("c09", "w8") *)
+Fixpoint split_dot (s : string) (acc : string) : string * string :=
+  match s with
+  | EmptyString => (acc, EmptyString)
+  | String c r => if Ascii.eqb c "."%char then (acc, r) else split_dot r (acc ++ String c EmptyString)
+  end.
+
+Inductive encsel := SelU | SelW | SelS.
+Definition family (suffix : string) : option (encsel * bool) :=
+  if tag_is suffix "u" || tag_is suffix "u8" || tag_is suffix "pu" || tag_is suffix "p8" then Some (SelU, false)
+  else if tag_is suffix "w" || tag_is suffix "w8" then Some (SelW, false)
+  else if tag_is suffix "tu" || tag_is suffix "t8u" then Some (SelU, true)
+  else if tag_is suffix "tw" || tag_is suffix "t8w" then Some (SelW, true)
+  else if tag_is suffix "sd" then Some (SelS, false)
+  else None.
+Definition enc_of (s : encsel) : encops := match s with SelU => UE | SelW => WE | SelS => SE end.
+
+(* ---- C01 (typed model in Ops.v) ---- *)
 Definition d_comp (v : val) : option comp :=
   match v with
-  | VC "R" [] => Some Root | VC "C" [] => Some Cur | VC "P" [] => Some Parent
-  | VC "Nm" [VB n] => Some (Normal n)
+  | VC t [] => if tag_is t "R" then Some Root else if tag_is t "C" then Some Cur else if tag_is t "P" then Some Parent else None
+  | VC t [VB n] => if tag_is t "Nm" then Some (Normal n) else None
   | _ => None
   end.
-Definition e_dirs (l : list N) : list bool := map (fun b => negb (N.eqb b 0)) l.
-
 Definition d_pair {A B} (fa : val -> option A) (fb : val -> option B) (v : val) : option (A * B) :=
   match v with
-  | VC "t" [a; b] => match fa a, fb b with Some x, Some y => Some (x, y) | _, _ => None end
+  | VC t [a; b] => if tag_is t "t" then match fa a, fb b with Some x, Some y => Some (x, y) | _, _ => None end else None
   | _ => None
   end.
-
 Definition e_c01 (o : c01_out) : val :=
   VC "c01" [ vlist (fun x => vpair (vopt e_comp (fst x)) (VB (snd x))) (c01_impl o);
              vlist (fun x => vpair (vopt e_comp (fst x)) (vlist e_comp (snd x))) (c01_std o);
              VBool (c01_has_root o); VBool (c01_is_abs o);
              VBool (c01_std_has_root o); VBool (c01_std_is_abs o);
              vopt e_comp (c01_try_from o) ].
+Definition dOptS {A} (f : val -> option A) (v : val) : option (option A) :=
+  match v with
+  | VN => Some None
+  | VC t [x] => if tag_is t "S" then match f x with Some a => Some (Some a) | None => None end else None
+  | _ => None
+  end.
 Definition d_c01 (v : val) : option c01_out :=
   match v with
-  | VC "c01" [a; b; VBool c; VBool d; VBool e; VBool f; g] =>
-      match dList (d_pair (dOpt d_comp) dB) a, dList (d_pair (dOpt d_comp) (dList d_comp)) b, dOpt d_comp g with
-      | Some a', Some b', Some g' =>
-          Some {| c01_impl := a'; c01_std := b'; c01_has_root := c; c01_is_abs := d;
-                  c01_std_has_root := e; c01_std_is_abs := f; c01_try_from := g' |}
-      | _, _, _ => None
-      end
+  | VC t [a; b; VBool c; VBool d; VBool e; VBool f; g] =>
+      if tag_is t "c01" then
+        match dList (d_pair (dOptS d_comp) dB) a, dList (d_pair (dOptS d_comp) (dList d_comp)) b, dOptS d_comp g with
+        | Some a', Some b', Some g' =>
+            Some {| c01_impl := a'; c01_std := b'; c01_has_root := c; c01_is_abs := d;
+                    c01_std_has_root := e; c01_std_is_abs := f; c01_try_from := g' |}
+        | _, _, _ => None
+        end
+      else None
   | _ => None
   end.
 
-Definition VBad := VC "badargs" [].
+(* ---- Windows-only queries (c02) ---- *)
+Definition ob_c02 (p : list byte) : val :=
+  VC "c02" [
+    vlist e_wcomp (w_components p);
+    vlist e_wcomp (w_components_rev p);
+    vt [VBool (w_has_prefix p); vopt e_wkind (w_prefix_kind p);
+        VBool (w_has_any_verbatim_prefix p); VBool (w_has_verbatim_prefix p); VBool (w_has_verbatim_unc_prefix p);
+        VBool (w_has_verbatim_disk_prefix p); VBool (w_has_device_ns_prefix p); VBool (w_has_unc_prefix p);
+        VBool (w_has_disk_prefix p); VBool (w_has_physical_root p); VBool (w_has_implicit_root p);
+        VBool (w_has_root p); VBool (w_is_absolute p)];
+    vopt e_wcomp (w_try_from p);
+    vopt (fun x => vpair (VB (fst x)) (e_wkind (snd x))) (w_prefix_try_from p);
+    vopt (fun k => vpair (vnat (wprefix_len k)) (VBool (wprefix_is_verbatim k))) (w_prefix_kind p) ].
 
-Definition run (op : string) (args : list val) : val :=
-  match op, args with
-  | "c01", [VB p; VB sched] => e_c01 (model_c01 p (e_dirs sched))
-  | _, _ => VBad
+(* ---- conversions (c16) ---- *)
+Definition e_res (r : option (list byte) * option cerr) : val :=
+  match r with
+  | (_, Some e) => VC "err" [e_err e]
+  | (Some b, None) => VC "ok" [VB b]
+  | (None, None) => VC "err" []
   end.
+Definition ob_c16 (s : encsel) (p : list byte) : val :=
+  match s with
+  | SelU => VC "c16" [VB (u_to_w p); e_res (u_to_w_checked p); VB p; e_res (u_to_u_checked p); VB (w_to_u (u_to_w p))]
+  | SelW => VC "c16" [VB (w_to_u p); e_res (w_to_u_checked p); VB p; e_res (w_to_w_checked p); VB (u_to_w (w_to_u p))]
+  | SelS => VBad
+  end.
+
+(* TypedPath::derive *)
+Definition derive_windows (p : list byte) : bool :=
+  match p with b :: _ => if N.eqb b 92 then true else w_has_prefix p | [] => w_has_prefix p end.
+
+Fixpoint run_fuel (fuel : nat) (op : string) (args : list val) : val :=
+  let (name, suffix) := split_dot op EmptyString in
+  (* pair.<op> : the Unix byte family next to real std::path on the same arguments *)
+  if tag_is name "pair" then
+    match fuel with
+    | S f => vpair (run_fuel f (suffix ++ ".u") args) (run_fuel f (suffix ++ ".sd") args)
+    | O => VBad
+    end
+  else
+  if tag_is name "c01" then
+    match args with [VB p; VB sched] => e_c01 (model_c01 p (e_dirs sched)) | _ => VBad end
+  else if tag_is name "c14c" then
+    match args with [VB p] => VC "c14c" [VBool (utf8_valid p)] | _ => VBad end
+  else if tag_is name "c19" then
+    match args with
+    | [VB p] => VC "c19" [if utf8_valid p then VSome (VB p) else VN; VB (lossy p); VB (lossy p); VBool true]
+    | _ => VBad end
+  else if tag_is name "c15d" then
+    match args with [VB p] => VC "c15d" [VBool (derive_windows p)] | _ => VBad end
+  else
+  match family suffix with
+  | None => VBad
+  | Some (sel, typed) =>
+    let E := enc_of sel in
+    if tag_is name "c02" then
+      match sel, args with SelW, [VB p] => ob_c02 p | _, _ => VBad end
+    else if tag_is name "c03" then
+      match args with [VB p; VB sched] => VC "c03" [o_sched E p (e_dirs sched); o_iter_sched E p (e_dirs sched)] | _ => VBad end
+    else if tag_is name "c04" then
+      match args with
+      | [VB base; VB p] => VC "c04" [ob_hist E typed base [VC "pushc" [VB p]]; ob_join_checked E base p; ob_join E typed base p]
+      | _ => VBad end
+    else if tag_is name "c05" then
+      match args with [VB a; VB b] => VC "c05" [ob_eqcmp E a b; ob_hash E typed a; ob_hash E typed b] | _ => VBad end
+    else if tag_is name "c06" then
+      match args with
+      | [VB a; VB b] => VC "c06" [ob_parent E a; ob_ancestors E a; ob_names E a; ob_rel E a b; ob_eqcmp E a b; o_flags E a]
+      | _ => VBad end
+    else if tag_is name "hist" then
+      match args with [VB i; VL ops] => VC "hist" [ob_hist E typed i ops] | _ => VBad end
+    else if tag_is name "c08" then
+      match args with [VB a; VB b] => VC "c08" [ob_join E typed a b; ob_hist E typed a [VC "push" [VB b]]] | _ => VBad end
+    else if tag_is name "c09" then
+      match args with [VB p] => VC "c09" [ob_parent E p; ob_ancestors E p; ob_hist E typed p [VC "pop" []]] | _ => VBad end
+    else if tag_is name "c10" then
+      match args with
+      | [VB a; VB b] =>
+          let j := o_push E a b in
+          VC "c10" [ob_rel E a b; ob_eqcmp E a b; ob_join E typed a b; ob_rel E j a]
+      | _ => VBad end
+    else if tag_is name "c11" then
+      match args with
+      | [VB p] =>
+          let n := o_normalize E p in
+          VC "c11" [VB n; o_flags E p; o_flags E n; VB (o_normalize E n);
+                    o_sched E n (repeat false (S (List.length n)))]
+      | _ => VBad end
+    else if tag_is name "c12" then
+      match args with
+      | [VB p; VB n] =>
+          let w := o_set_file_name E p n in
+          VC "c12" [ob_names E p; VB w; ob_names E w; ob_parent E w; ob_parent E p; ob_join E typed p n]
+      | _ => VBad end
+    else if tag_is name "c13" then
+      match args with
+      | [VB p; VB e] =>
+          let r := fst (o_set_extension E p e) in
+          VC "c13" [ob_hist E typed p [VC "sext" [VB e]]; VB r; ob_names E r; ob_parent E r; ob_parent E p; ob_names E p]
+      | _ => VBad end
+    else if tag_is name "c16" then
+      match args with [VB p] => ob_c16 sel p | _ => VBad end
+    else if tag_is name "c17" then
+      match args with
+      | [VB p] => VC "c17" [ob_is_valid E typed p; ob_comp_valid E typed p; ob_join_checked E [] p]
+      | _ => VBad end
+    else VBad
+  end.
+Definition run := run_fuel 1.
 
 Definition check (op : string) (args : list val) (out : val) : bool :=
-  match op, args with
-  | "c01", [VB p; VB sched] =>
-      match d_c01 out with Some o => check_c01 p (e_dirs sched) o | None => false end
-  | _, _ => false
-  end.
+  let (name, suffix) := split_dot op EmptyString in
+  if tag_is name "c01" then
+    match args with
+    | [VB p; VB sched] => match d_c01 out with Some o => check_c01 p (e_dirs sched) o | None => false end
+    | _ => false
+    end
+  else oracle name suffix args out.
